@@ -15,23 +15,31 @@ EXTENDS Integers, Sequences, FiniteSets, TLC, Json
 CONSTANTS Alphabet,   \* sequence of fragments (strings)
           Core,       \* subset of DOMAIN Alphabet used up to MaxCore
           MaxAll,     \* every fragment: documents up to this length
-          MaxCore     \* core fragments: documents up to this length
+          MaxCore,    \* core fragments: documents up to this length
+          Wrappers,   \* sequence of <<prefix, suffix>> put around the document (inline contexts)
+          MaxWrap,    \* nesting bound of wrappers
+          MaxDeep     \* length bound of documents wrapped more than once
 
-VARIABLES doc         \* sequence of indices into Alphabet
+VARIABLES doc,        \* sequence of indices into Alphabet
+          wraps       \* sequence of indices into Wrappers, outermost first
 
-Init == doc = <<>>
+WrapSeqs == UNION {[1..k -> DOMAIN Wrappers] : k \in 0..MaxWrap}
+
+Init == doc = <<>> /\ wraps \in WrapSeqs
 
 AllCore(d) == \A k \in DOMAIN d : d[k] \in Core
 
 Extend(i) ==
-    /\ \/ Len(doc) < MaxAll
-       \/ Len(doc) < MaxCore /\ AllCore(doc) /\ i \in Core
+    /\ \/ Len(doc) < (IF Len(wraps) >= 2 THEN MaxDeep ELSE MaxAll)
+       \/ Len(wraps) < 2 /\ Len(doc) < MaxCore /\ AllCore(doc) /\ i \in Core
     /\ doc' = Append(doc, i)
+    /\ UNCHANGED wraps
 
-Next == PrintT(ToJson(doc)) /\ \E i \in DOMAIN Alphabet : Extend(i)
-Spec == Init /\ [][Next]_doc
+Next == PrintT(ToJson([w |-> wraps, d |-> doc])) /\ \E i \in DOMAIN Alphabet : Extend(i)
+Spec == Init /\ [][Next]_<<doc, wraps>>
 
 (* generator sanity: every exported document is within the stated bounds *)
 Bounded == Len(doc) <= MaxCore \/ Len(doc) <= MaxAll
+WrapsOK == Len(wraps) <= MaxWrap
 Shape   == Len(doc) > MaxAll => AllCore(doc)
 =============================================================================
